@@ -1,0 +1,17 @@
+//go:build verif
+
+package pipeline
+
+// Exported wrappers for the verification harness (C08/C09/C01/C02): event kinds and batch internals.
+
+func (e *Event) VerifSetKind(k int) { e.kind = Kind(k) }
+func (e *Event) VerifKind() int     { return int(e.kind) }
+
+// VerifEvents returns the events of a batch including child-parent ones (ForEach skips those).
+func (b *Batch) VerifEvents() []*Event { return b.events }
+func (b *Batch) VerifSeq() int64       { return b.seq }
+func (b *Batch) VerifSize() int        { return b.eventsSize }
+func (b *Batch) VerifStatus() int      { return int(b.status) }
+
+// VerifBatcher gives access to the Batcher inside a RetriableBatcher (trace labels carry it as obj).
+func (b *RetriableBatcher) VerifBatcher() *Batcher { return b.batcher }
